@@ -451,7 +451,7 @@ pub fn quiescent_checks() {
         let Some(st) = stats else { return };
         let any_limbo = w.srcs.iter().any(|s| s.st == St::Limbo);
         let live = w.srcs.iter().filter(|s| s.inserted()).count();
-        let adapters = w.adapters.iter().filter(|a| a.adapter.is_some()).count();
+        let adapters = w.adapters.iter().filter(|a| a.adapter.is_some()).count() + w.owned_fds.len();
         if st.occupied != live + adapters {
             let c = if st.occupied > live + adapters { "slot-still-occupied" } else { "slot-vanished" };
             w.alarm("C06.occupied", c, format!("{} slots occupied, the ledger has {} inserted sources and {} live adapters", st.occupied, live, adapters));
@@ -549,6 +549,12 @@ fn check_epoll_table(w: &mut World) {
                 Some(i) => matched[i] = true,
                 None => alarms.push(("C16.exact".into(), "live-adapter-not-registered".into(), format!("fd {} of a live adapter is not in the epoll table", a.fd_raw))),
             }
+        }
+    }
+    for raw in w.owned_fds.iter() {
+        match table.iter().position(|e| e.tfd == *raw) {
+            Some(i) => matched[i] = true,
+            None => alarms.push(("C16.exact".into(), "live-adapter-not-registered".into(), format!("fd {} of a live adapter (owned by a callback) is not in the epoll table", raw))),
         }
     }
     for (i, e) in table.iter().enumerate() {
@@ -771,6 +777,15 @@ fn teardown(el: EventLoop<'static, ()>, end: u8, judge: bool, dead: bool) {
     // adapters hold the loop's internals alive: they go first
     let adapters = w(|w| std::mem::take(&mut w.adapters));
     drop(adapters);
+    // (an adapter owned by a callback is a handle to the loop held by the loop: the harness breaks
+    // the cycle it made)
+    let cells = w(|w| std::mem::take(&mut w.owned_cells));
+    for c in cells {
+        if let Some(rc) = c.upgrade() {
+            let ad = rc.borrow_mut().take();
+            drop(ad);
+        }
+    }
     let idle_handles: Vec<_> = w(|w| w.idles.iter_mut().map(|i| i.handle.take()).collect());
     drop(idle_handles);
     let handle = w(|w| w.handle.take());
